@@ -149,6 +149,7 @@ type scenario struct {
 	ks       tok.KeySetDesc
 	client   string // issuer of assertions / request objects
 	scenName string
+	valid    bool // build key set and token so that ONLY the allow-list can reject
 }
 
 // publishedKeys builds a key list around the signer: the signer's key (mostly
@@ -157,7 +158,11 @@ func (g *gen) publishedKeys(s *scenario) ([]tok.JWK, string) {
 	r := g.r
 	var keys []tok.JWK
 	name := ""
-	switch r.IntN(14) {
+	pk := r.IntN(14)
+	if s.valid {
+		pk = 13
+	}
+	switch pk {
 	case 0:
 		name = "absent"
 	case 1:
@@ -179,6 +184,9 @@ func (g *gen) publishedKeys(s *scenario) ([]tok.JWK, string) {
 		keys = append(keys, tok.JWK{Kid: s.kid, Use: drv.Pick(r, []string{"sig", "sig", ""}), Key: s.signer})
 	}
 	nd := drv.Pick(r, []int{0, 0, 0, 1, 1, 1, 2, 3})
+	if s.valid {
+		nd = 0
+	}
 	for i := 0; i < nd; i++ {
 		j := g.randomJWK(false)
 		if r.Chance(1, 3) {
@@ -206,11 +214,11 @@ func (g *gen) keySet(s *scenario, kind string) {
 		keys, name := g.publishedKeys(s)
 		s.scenName = name
 		s.ks = tok.KeySetDesc{Kind: "openid", Keys: keys}
-		if r.Chance(1, 6) {
+		if r.Chance(1, 6) && !s.valid {
 			// private key objects in the provider's own list
 			s.ks.Keys = append(s.ks.Keys, tok.JWK{Kid: s.kid, Use: "sig", Key: s.signer, Private: true})
 		}
-		if r.Chance(1, 25) {
+		if r.Chance(1, 25) && !s.valid {
 			s.ks.KeysErr = true
 			s.scenName = "keys_err"
 		}
@@ -218,7 +226,11 @@ func (g *gen) keySet(s *scenario, kind string) {
 		served, name := g.publishedKeys(s)
 		s.scenName = name
 		d := tok.KeySetDesc{Kind: "remote", Served: served, Skip: r.Chance(1, 4)}
-		switch r.IntN(8) {
+		cs := r.IntN(8)
+		if s.valid {
+			cs = r.IntN(3) // cold or warm with the same list
+		}
+		switch cs {
 		case 0, 1, 6, 7: // cold cache
 		case 2:
 			d.Cached = served
@@ -235,7 +247,7 @@ func (g *gen) keySet(s *scenario, kind string) {
 			d.Cached = []tok.JWK{g.randomJWK(false)}
 			s.scenName += "+unrelated"
 		}
-		if r.Chance(1, 12) {
+		if r.Chance(1, 12) && !s.valid {
 			d.ServedFail = true
 			s.scenName += "+fetchfail"
 		}
@@ -295,28 +307,67 @@ func (g *gen) pickSigner(algPool []string) *scenario {
 	return s
 }
 
-func (g *gen) allowList(s *scenario) []string {
+// allowClass draws the class of the verifier's configured allowed-algorithm list
+// (a dimension of its own): a list containing the token's algorithm (alone, or
+// mixed with other / symmetric / unknown names), the empty list (library default
+// RS256, ES256, PS256), or a list WITHOUT the token's algorithm: only none / HS*,
+// only unknown names, only other asymmetric algorithms, mixtures of those, [""].
+func (g *gen) allowClass() string {
+	return drv.Pick(g.r, []string{"with_alg", "with_alg", "with_alg", "with_alg", "with_alg", "with_alg", "with_alg", "with_alg", "with_alg",
+		"empty", "empty", "only_sym", "only_sym", "only_unknown", "other_asym", "other_asym", "sym_plus_other", "blank"})
+}
+
+// lacksAlg: the class is a configured, non-empty list that does not contain the token's algorithm.
+func lacksAlg(class string) bool {
+	return class != "with_alg" && class != "empty"
+}
+
+func (g *gen) allowList(class, alg string) []string {
 	r := g.r
-	switch r.IntN(8) {
-	case 0:
-		return nil
-	case 1:
-		return []string{"RS256"}
-	case 2:
-		return []string{"HS256", "none", s.alg}
-	case 3:
+	other := func() string {
 		o := drv.Pick(r, allAlgs)
-		if o == s.alg {
-			o = "RS512"
+		if o == alg {
+			o = map[bool]string{true: "RS512", false: "RS256"}[alg == "RS256"]
 		}
-		return []string{o}
-	default:
-		l := []string{s.alg}
+		return o
+	}
+	sym := func() []string {
+		return drv.Pick(r, [][]string{{"HS256"}, {"none"}, {"HS256", "HS384", "HS512"}, {"none", "HS256"}, {"HS512", "none"}})
+	}
+	unknown := func() []string {
+		return drv.Pick(r, [][]string{{"foo"}, {"rs256", "Es256"}, {"RS257"}, {"RS", "ES"}, {alg + " "}, {"HMAC", "RSA"}})
+	}
+	var l []string
+	switch class {
+	case "empty":
+		return drv.Pick(r, [][]string{nil, {}})
+	case "only_sym":
+		return sym()
+	case "only_unknown":
+		return unknown()
+	case "other_asym":
+		l = []string{other()}
 		if r.Bool() {
-			l = append([]string{drv.Pick(r, allAlgs)}, l...)
+			l = append(l, other())
 		}
 		return l
+	case "sym_plus_other":
+		return append(append(sym(), other()), unknown()...)
+	case "blank":
+		return []string{""}
 	}
+	// with_alg
+	switch r.IntN(6) {
+	case 0, 1, 2:
+		l = []string{alg}
+	case 3:
+		l = []string{other(), alg}
+	case 4:
+		l = append(sym(), alg)
+	default:
+		l = append([]string{alg}, unknown()...)
+	}
+	return l
 }
 
 func pickMutation(r drv.Rand, benign int) string {
@@ -360,7 +411,12 @@ func (g *gen) checkSigCase() {
 	if hs {
 		algPool = []string{"HS256", "HS384", "HS512"}
 	}
+	class := g.allowClass()
+	if lacksAlg(class) && !hs && r.Chance(2, 3) {
+		algPool = defAlgs // so that a fallback to the default list would show
+	}
 	s := g.pickSigner(algPool)
+	s.valid = !hs && class != "with_alg" && r.Chance(3, 4)
 	if hs && r.Bool() {
 		s.signer = g.pool.Keys[9] // the PEM of RSA key 0's public key as MAC secret
 	}
@@ -373,15 +429,15 @@ func (g *gen) checkSigCase() {
 			s.ks.Served = append([]tok.JWK{rsaJ}, s.ks.Served...)
 		}
 	}
-	allowed := g.allowList(s)
-	if r.Bool() {
-		allowed = []string{s.alg}
-	}
+	allowed := g.allowList(class, s.alg)
 	now := time.Now().Unix()
 	c := tok.Claims{Iss: issuer, Sub: "user-1", Aud: []string{"client-a"}, Exp: now + 3600, Iat: now - 5, Extra: fmt.Sprintf("x%d", r.IntN(1000))}
 	evil := c
 	evil.Sub = "attacker"
 	mut := pickMutation(r, 45)
+	if s.valid {
+		mut = drv.Pick(r, []string{"none", "none", "typ", "flat_same"})
+	}
 	t, m := g.buildToken(s, mut, c, evil, tok.PayloadOpts{ExtraKey: "ext", Reverse: r.Bool()})
 	parsed := m.Bytes
 	ptag := "middle"
@@ -407,7 +463,7 @@ func (g *gen) checkSigCase() {
 	}
 	in := emit.Ctor("ICheckSig", emit.StrList(allowed), s.ks.Coq(), t.Coq(), emit.Str(parsed))
 	g.w.Add(emit.Case{Input: in, Observed: obs,
-		Tags:  []string{"kind=checksig", "mut=" + mut, "ks=" + s.ksKind, "keys=" + s.scenName, "alg=" + s.alg, "parsed=" + ptag, "kidhdr=" + tagStr(s.kid), fmt.Sprintf("allowed=%d", len(allowed))},
+		Tags:  []string{"kind=checksig", "mut=" + mut, "ks=" + s.ksKind, "keys=" + s.scenName, "alg=" + s.alg, "parsed=" + ptag, "kidhdr=" + tagStr(s.kid), "allow=" + class},
 		Human: map[string]any{"token": t.Raw, "allowed": allowed, "mut": mut, "scenario": s.scenName}})
 }
 
@@ -424,7 +480,15 @@ func (g *gen) verifyCase(kind string) {
 	if hs {
 		algPool = []string{"HS256", "HS384"}
 	}
+	class := "empty" // assertions and request objects: no configuration, nil list
+	if !fixedDefault {
+		class = g.allowClass()
+		if lacksAlg(class) && !hs && r.Chance(2, 3) {
+			algPool = defAlgs
+		}
+	}
 	s := g.pickSigner(algPool)
+	s.valid = !hs && !fixedDefault && class != "with_alg" && r.Chance(3, 4)
 	if hs && r.Bool() {
 		s.signer = g.pool.Keys[9]
 	}
@@ -451,22 +515,16 @@ func (g *gen) verifyCase(kind string) {
 	}
 	v := tok.VCfg{Issuer: issuer, Client: s.client}
 	if !fixedDefault {
-		v.Algs = g.allowList(s)
-		if r.Chance(4, 5) { // mostly an allow-list containing the algorithm
-			v.Algs = []string{s.alg}
-			if r.Bool() {
-				v.Algs = append(v.Algs, drv.Pick(r, allAlgs))
-			}
-		}
-		if r.Chance(1, 6) && (s.alg == "RS256" || s.alg == "ES256" || s.alg == "PS256") {
-			v.Algs = nil
-		}
+		v.Algs = g.allowList(class, s.alg)
 	}
 	now := time.Now().Unix()
 	opts := tok.PayloadOpts{ExtraKey: "ext", Reverse: r.Bool(), AudSingle: r.Bool()}
 	var c tok.Claims
 	claimMut := "none"
 	cm := r.IntN(100)
+	if s.valid {
+		cm = 99 // claims stay valid: only the allow-list can reject
+	}
 	ext := fmt.Sprintf("x%d", r.IntN(100000))
 	switch kind {
 	case "rp":
@@ -591,6 +649,9 @@ func (g *gen) verifyCase(kind string) {
 		evil.Sub = "admin"
 	}
 	mut := pickMutation(r, 62)
+	if s.valid {
+		mut = drv.Pick(r, []string{"none", "none", "typ", "flat_same"})
+	}
 	t, m := g.buildToken(s, mut, c, evil, opts)
 
 	// clock bracket: the outcome must not depend on where in [t0,t1] the clock is read
@@ -671,7 +732,7 @@ func (g *gen) verifyCase(kind string) {
 		obs = "(OVerify (Reject EOther))" // harness self-test: a wrong observation must be flagged
 	}
 	in := emit.Ctor("IVerify", kindCoq, v.Coq(), s.ks.Coq(), t.Coq(), m.Coq(), emit.Z(t0), emit.Z(t1))
-	tags := []string{"kind=verify", "v=" + kind, "mut=" + mut, "ks=" + s.ksKind, "keys=" + s.scenName, "alg=" + s.alg, "claims=" + claimMut, "kidhdr=" + tagStr(s.kid)}
+	tags := []string{"kind=verify", "v=" + kind, "mut=" + mut, "ks=" + s.ksKind, "keys=" + s.scenName, "alg=" + s.alg, "claims=" + claimMut, "kidhdr=" + tagStr(s.kid), "allow=" + class}
 	if mut == "payload_null" {
 		tags = append(tags, "payload=nonobject")
 	}
